@@ -5,7 +5,9 @@ import os, sys
 sys.path.insert(0, os.path.dirname(os.path.dirname(os.path.abspath(__file__))))
 import kernel_part
 
-LEAN_MODULES = ['C01'] + kernel_part.LEAN_MODULES
+# C02b: the table of constructors (which operator hands which kind of subscriber upstream) regenerated from the source is the
+# premise of the concurrent clause ("observables built with the default/safe constructors")
+LEAN_MODULES = ['C01'] + kernel_part.LEAN_MODULES + ['C02b']
 
 MANIFEST = dict(
     text="Proved in Lean for every raw producer script (legal or not): the subscriber/observer gate delivers a Grammar-conforming prefix and delivered++dropped = raw "
@@ -16,6 +18,49 @@ MANIFEST = dict(
          "Tie: every catalogue operator's machine is run against the real operator on exhaustive/seeded raw scripts incl. illegal suffixes (kinds + drops compared), plus a direct Grammar oracle on the implementation trace.",
     technique="Lean 4 proof (induction over raw scripts, gate lemmas) + differential correspondence of the executable model against the implementation",
     ref='5/C01')
+
+
+def after_part(ctx):
+    """(b) pipelines under goroutine-driven producers with a terminal racing the values (the overlap set-ups of C02, read
+    for C01's clause): where the regenerated rows say the final observer sits behind a locking subscriber, no callback may
+    begin after a terminal callback has begun. Runs behind an operator the rows mark non-locking are kept: they are the
+    failing input when the table decision (RoProps/C02b) breaks."""
+    ctx.c01_after_may = []
+    for kind, shards in (('overlap', 4), ('overlap2', 6)):
+        for c, g, l in R.run_kind(ctx, kind, shards=shards):
+            ctx.evaluations += 1
+            gd, ld = R.parse_res(g), R.parse_res(l)
+            if flag(gd) or flag(ld):
+                continue                      # reported by C02
+            try:
+                after = int(gd.get('after', '0'))
+            except ValueError:
+                after = 0
+            if after == 0:
+                ctx.traces_validated += 1
+            elif ld.get('expect') == 'serialized':
+                ctx.violation(f'C01: {after} callback(s) of the final observer began after its terminal callback, in a pipeline of safe-constructor operators fed from several goroutines',
+                              f'# raw observer with a terminal flag; every input pumped from a goroutine of its own\n{c}\n# implementation: {g}\n# model: {l}\n')
+            else:
+                ctx.c01_after_may.append((c, g, l))
+
+
+def table_after_search(ctx, out):
+    """RoProps/C02b no longer decides the regenerated constructor table: name the rows and, if a run of this check delivered
+    something after the terminal behind one of them, report that run as the failing input"""
+    rows = bad_rows('C02')
+    if not rows:
+        return False
+    names = ', '.join(sorted({n for n, _ in rows}))
+    head = '# proof obligation over the regenerated table RoGen.Catalogue no longer holds (RoProps/C02b, premise of C01\'s concurrent clause): ' + '; '.join(f'{n}: {why}' for n, why in rows) + '\n'
+    hit = [x for x in getattr(ctx, 'c01_after_may', []) if any(n in x[0] for n, _ in rows)] or getattr(ctx, 'c01_after_may', [])
+    if hit:
+        c, g, l = hit[0]
+        ctx.violation(f'C01: the constructor table changed ({names}) and the final observer received a notification after its terminal ({len(hit)} set-ups)',
+                      head + f'# concrete run: raw observer, every input of the operator pumped from a goroutine of its own\n{c}\n# implementation: {g}\n# model: {l}\n')
+    else:
+        ctx.violation(f'C01: regenerated fact rows violate the predicate: {names}', head, no_input=True)
+    return True
 
 
 def check(ctx):
@@ -35,7 +80,8 @@ def check(ctx):
             ctx.violation('C01: a subscriber of a subject received a notification after its terminal', f'{c}\n# implementation: {g}\n# model: {l}\n')
         else:
             ctx.traces_validated += 1
-    return dict(search=k.get('search'), assumptions=k.get('assumptions'), extra=k.get('extra'), rule=(k.get('rule', '') + '; ' if k.get('rule') else '') + 'random chains of 2-5 int->int operators (sync/hot, cuts) + ' + 'every catalogue operator x parameters x variants x raw scripts (exhaustive to length 2/3 over {-1,0,2,3}, three endings, '
+    after_part(ctx)
+    return dict(search=combine_search(k.get('search'), table_after_search), assumptions=k.get('assumptions'), extra=k.get('extra'), rule=(k.get('rule', '') + '; ' if k.get('rule') else '') + 'random chains of 2-5 int->int operators (sync/hot, cuts) + ' + 'every catalogue operator x parameters x variants x raw scripts (exhaustive to length 2/3 over {-1,0,2,3}, three endings, '
                      'illegal suffixes N/C/E after the terminal, seeded longer scripts) x {sync, hot} source x external cut; '
                      'compared: kinds of delivered notifications + multiset of dropped notifications; oracle: Grammar on the implementation trace; '
                      'non-trivial = script has a value and something was delivered or dropped')
